@@ -388,6 +388,13 @@ def check_loop_and_exit_shapes(ctx: Ctx):
             cost_atoms = [a for a in at if "max_cost" in a and a != "max_cost is not None"]
             okp = "max_cost is not None" in at and len(at) == 2 and len(cost_atoms) == 1 and cost_atoms[0].startswith("max_cost < ") and len(pr.body) == 1 and isinstance(pr.body[0], ast.Continue) and not pr.orelse
             ctx.ob("C11-O2", "R1 STATUS-GUARD", f, f"{name}: a popped node is left unexpanded for its cost exactly when a limit is given and its cost is above the limit", okp, f"`if {ast.unparse(pr.test)}` -> {ast.unparse(pr.body[0])[:30]}: any other reading of the limit prunes nodes inside it, and targets within max_cost come back INFEASIBLE", node=pr)
+        # a goal over the limit is not an answer: nodes over the limit are not expanded, so the cost at which such a
+        # goal is popped may be that of a detour around a pruned node - the success return lies behind the cut
+        for s_ in result_sites(f):
+            if not (set(s_.statuses) & {"OPTIMAL", "FEASIBLE"}) or s_.node.loop is None:
+                continue
+            behind = any(cfg.dominates(cfg.stmt_node_containing(pr.test), s_.node) for pr in prunes if cfg.stmt_node_containing(pr.test) is not None)
+            ctx.ob("C11-O2", "R2 ORDER", f, f"{name}: the goal is reported only after the cost limit was tested for the popped node", behind, "with the goal test first, s->a (5), s->b (11), a->t (10), b->t (1) and max_cost=10 answers OPTIMAL 15 via a: b was pruned, the shortest path (12) runs through it", node=s_.call)
     # the budget counts expanded nodes, not heap pops: dijkstra_edges hands dijkstra the budget n_nodes + 1 on exactly
     # that reading (superseded heap entries are popped too, and there can be many more of them than nodes)
     for mod, name in (("dijkstra", "dijkstra"), ("a_star", "astar")):
@@ -658,7 +665,30 @@ def _v_grid_fast_fail(tree):
     M.replace_stmt(g, lambda s: M.src_is(s, "h_name = heuristic"), M.stmts("if start != goal and not any((0 <= gr + dr < rows and 0 <= gc + dc < cols and grid[gr + dr][gc + dc] not in blocked_set for dr, dc in _DIRS_4)):\n    return Result(None, float('inf'), 0, 0, Status.INFEASIBLE)\nh_name = heuristic"))
 
 
+def _v_goal_before_cost_cut(tree, fname):
+    g = M.find_func(tree, fname)
+    for w in ast.walk(g):
+        if isinstance(w, ast.While):
+            ks = [i for i, st in enumerate(w.body) if isinstance(st, ast.If) and M.src_has(st.test, "max_cost")]
+            gs = [i for i, st in enumerate(w.body) if isinstance(st, ast.If) and M.src_has(st.test, "is_goal(")]
+            if ks and gs and ks[0] < gs[0]:
+                cut = w.body.pop(ks[0])
+                w.body.insert(gs[0], cut)
+                return
+    raise M.Skip("cost cut / goal test not found in this order")
+
+
+def _v_dj_goal_before_cost_cut(tree):
+    _v_goal_before_cost_cut(tree, "dijkstra")
+
+
+def _v_as_goal_before_cost_cut(tree):
+    _v_goal_before_cost_cut(tree, "astar")
+
+
 VARIANTS = [
+    M.Variant("dijkstra tests the goal before the cost limit (original defect)", DJ, _v_dj_goal_before_cost_cut, "C11-O2"),
+    M.Variant("astar tests the goal before the cost limit (original defect)", AS, _v_as_goal_before_cost_cut, "C11-O2"),
     M.Variant("grid fast-fail scans the 4-neighbourhood in both modes (seed C11-A)", AS, _v_grid_fast_fail, "C11-O6"),
 
     M.Variant("dijkstra reports the goal when first discovered (push time)", DJ, _v_goal_on_push, "C11-O1"),
